@@ -6,7 +6,7 @@ from __future__ import annotations
 
 import collections
 
-from ..common import Report, main_wrapper, scratch, seed
+from ..common import Report, main_wrapper, scratch, eff_seed
 from ..cunits import run_cjobs
 from ..machine import run_units, trap_kind
 from .args import parse
@@ -24,7 +24,7 @@ def main():
     quick = a.tier == "quick"
     sel = (lambda m, p: a.only in p.name()) if a.only else None
     with scratch() as d:
-        recs = run_cjobs(MODULES, seed(), cap=8 if quick else 32, workdir=d, derived=4 if quick else 30,
+        recs = run_cjobs(MODULES, eff_seed(), cap=8 if quick else 32, workdir=d, derived=4 if quick else 30,
                          select=sel, ops=OPS, heap=True)
         comp = [r for r in recs if r["status"] == "compiled"]
         cunits = [r["unit"] for r in comp]
